@@ -1839,7 +1839,7 @@ func runC14(w *World, r *Report) {
 									okCond = true
 								}
 								// a helper that does the guarded send and reports whether the consumer is still there
-								if cal := x.Call.StaticCallee(); cal != nil && isRepoFunc(cal) && len(cal.Blocks) > 0 {
+								if cal := calleeOf(x); cal != nil && isRepoFunc(cal) && len(cal.Blocks) > 0 {
 									instrsOf(cal, func(in ssa.Instruction) {
 										if sel, ok := in.(*ssa.Select); ok && selectHasCtxArm(sel) {
 											okCond = true
